@@ -133,6 +133,15 @@ Example c13_config_example :
   members_of 4 (config_ops 4 4 [0; 4; 2]%nat) = [(2, 2); (1, 4); (0, 0)]%nat.
 Proof. vm_compute. reflexivity. Qed.
 
+(* a Get that overlaps Remove n is linearised before or after it (Exec.race_ok checks answer = owner before or owner
+   after); with another node of positive weight present all the time both answers are present nodes, never absent *)
+Theorem c13_get_overlapping_remove : forall vh cap, inj vh cap -> forall ops x i1 i2 n,
+  (exists a r, a <> n /\ In (a, r) (members_of cap ops) /\ (0 < r)%nat) ->
+  (exists p, get (run vh cap ops) x i1 = Ok (Some p)) /\
+  (exists q, get (run vh cap (ops ++ [Remove n])) x i2 = Ok (Some q) /\ q <> n).
+Proof. exact overlap_remove. Qed.
+Print Assumptions c13_get_overlapping_remove.
+
 (* kv multi-key Del: with every key stored on its owner shard, one Del(keys...) leaves none of the named keys on
    any shard (whatever the owners of adjacent keys are) and touches no other key *)
 Theorem c13_multidel_removes_all : forall owner ks st, (forall k n, In k (st n) -> n = owner k) ->
